@@ -192,10 +192,13 @@ P("C18", level_text="Theorems for all values: != is the negation of ==, <= is < 
   level_note="known finding: == is asymmetric for objects with repeated keys (reachable through MessagePack)",
   suites=lambda tier: [S.CmpSuite(cfg=DEF)])
 
-P("C04", level_text="The slot-level model (pools, free list, chains, extension slots, reference-counted strings) is compared after every operation with the real "
-  "library on generated non-aliasing histories: every observation AND the allocator log of every operation, on several pool geometries; the library's observations are also checked "
-  "against an independent plain ordered-tree machine.",
-  level_note="refinement theorem for the document operations is in progress; aliasing assignments are excluded (see known findings)",
+P("C04", namespaces=["C04"], level_text="Theorems about the slot-level document model (total definitions over pools, free list, next-linked chains with head/tail, extension slots, "
+  "reference-counted strings) under a ghost-layout invariant WFG (chains acyclic, tail = last slot, slots used once, live in the pool): the abstraction to an ordered tree never runs out of "
+  "fuel, array append refines list append, set of every scalar/string kind (incl. 64-bit extension slots, copied/linked strings, double narrowing) writes exactly that value, clear of a "
+  "scalar/string location nulls exactly that location with the frame property (every other location keeps its value), size/findKey agree with the tree; slot ids handed out are fresh, "
+  "releases are local. The same model is compared after every operation with the real library on generated non-aliasing histories: every observation AND the allocator log, on several "
+  "pool geometries; the library's observations are also checked against an independent plain ordered-tree machine.",
+  level_note="not yet theorems: clear of a collection, removal, member append, deep copy and the lift to whole histories (tied by the correspondence); aliasing assignments are excluded",
   suites=lambda tier: [S.HistSuite(cfg=G["default"]), S.HistSuite(cfg=G["tiny1"], nh=40 if tier == "quick" else 2000), S.HistSuite(cfg=G["id1"], nh=30 if tier == "quick" else 2000)] +
   ([S.HistSuite(cfg=G[g], nh=1500) for g in ("tiny2", "id1c10", "id1i3", "len1", "len4")] if tier == "thorough" else []),
   partial=["C04_refines"])
@@ -216,7 +219,7 @@ P("C06", module="AJ.Props.C19", namespaces=["C06"], level_text="Theorems at the 
   "the ledger must be empty after clear(); double release or release through another allocator aborts the harness.",
   level_note="string-node reference counts are modelled (de-duplication, release at zero) and compared through the allocator log; the deserialization memory bound is checked on sampled inputs only",
   suites=lambda tier: [S.HistSuite(cfg=G["default"]), S.HistSuite(cfg=G["tiny1"], nh=40 if tier == "quick" else 2000), S.FaultSuite(cfg=G["default"], nh=60 if tier == "quick" else 2000),
-                       S.MpDeSuite(cfg=DEF, n=600 if tier == "quick" else 50000)],
+                       S.MpDeSuite(cfg=DEF, n=600 if tier == "quick" else 50000), S.LimitSuite(cfg=G["len1"]), S.LimitSuite(cfg=G["id1"])],
   partial=["C06_dedup and C06_deser_bound as theorems"])
 
 P("C19", namespaces=["C19"], level_text="Theorems for every geometry with poolCap >= 1 and initPools >= 1, every operation sequence and failure oracle: slot identifiers never wrap, "
@@ -236,6 +239,14 @@ P("C20", level_text="Theorems: (1) the inventory of every object with static sto
   level_note="data races on memory the model does not describe and the thread safety of malloc are observed (TSan), not proved; the inventory covers the API instantiated by the harness translation unit",
   suites=lambda tier: [S.ThreadSuite(cfg=DEF)],
   partial=["races on the binary are observed, not proved"])
+
+P("C14", module="AJ.Props.C04", namespaces=["C14"], level_text="Theorem C14.kind_irrelevant: on the slot-level model, storing a string by address (linked) or by copy (owned, de-duplicated, "
+  "reference counted) yields the same abstract document, for every document state satisfying the invariant and every location; clearing one user of a shared string leaves the others "
+  "intact (C04.clearV_scalar with the reference-count argument). The same history is executed on the real library with five string source kinds (std::string, string_view, char*, "
+  "JsonString copied, JsonString linked; strings with NUL, bytes >= 0x80, numeric text) and every observation (tree, conversions, is<T>, as<const char*> termination) must be identical "
+  "across kinds and equal to the model's.",
+  level_note="Arduino String / flash strings are not in the quick tier; isLinked() is deliberately not observed",
+  suites=lambda tier: [S.StringKindSuite(cfg=DEF), S.HistSuite(cfg=G["default"], nh=30 if tier == "quick" else 1500)])
 
 for pid in list(PROPS):
     if not PROPS[pid]["theorems"]:
